@@ -46,6 +46,9 @@ func NewSparseInt64Vector(indices []int, values []int64, n int) *SparseInt64Vect
   }
   r := nilSparseInt64Vector(n)
   for i, k := range indices {
+    if k < 0 {
+      panic("negative index")
+    }
     if k >= n {
       panic("index larger than vector dimension")
     }
